@@ -103,7 +103,66 @@ def _hist_f6(case, rec):
     return isinstance(case, dict) and case.get("kind") == "hist" and "F6:" in rec.get("obs", "")
 
 
+def _hist_op(case, rec):
+    m = re.search(r"^DIFF: first difference at op (\d+): direct=(.*?)\| proxied=(.*?)\|", rec.get("obs", ""))
+    if not (isinstance(case, dict) and case.get("kind") == "hist" and m):
+        return None, None, None
+    i = int(m.group(1))
+    ops = case.get("ops", [])
+    return (ops[i] if i < len(ops) else None), m.group(2), m.group(3)
+
+
+def pred_sym_setter(case, rec, exp):
+    """direct object: [[Set]] on an own getter-only accessor that was converted from a data property by defineProperty
+    reports success (Reflect.set true, strict assignment does not throw); through the forwarding proxy it correctly fails."""
+    op, d, p = _hist_op(case, rec)
+    if not op or op.get("o") != "set":
+        return False
+    return (d, p) in (("set:T", "set:F"), ("set:ok", "set:TypeError"))
+
+
+def pred_keys_drop_index(case, rec, exp):
+    """Object.keys/entries/for-in style enumeration through the proxy lacks exactly one array-index key that the direct
+    object lists (root cause not analysed yet)."""
+    op, d, p = _hist_op(case, rec)
+    if not op or op.get("o") != "keys" or not d.startswith("keys:[") or not p.startswith("keys:["):
+        return False
+    dl = re.findall(r'"((?:[^"\\]|\\.)*)"', d)
+    pl = re.findall(r'"((?:[^"\\]|\\.)*)"', p)
+    missing = [x for x in dl if x not in pl]
+    return len(dl) == len(pl) + 1 and len(missing) == 1 and re.match(r"^\d+(=|$)", missing[0]) is not None
+
+
+def _hist_raw(case, rec):
+    m = re.search(r"^DIFF: first difference at op (\d+): direct=(.*) proxied=(.*)$", rec.get("obs", ""), re.S)
+    if not (isinstance(case, dict) and case.get("kind") == "hist" and m):
+        return None, "", ""
+    i = int(m.group(1))
+    ops = case.get("ops", [])
+    return (ops[i] if i < len(ops) else None), m.group(2), m.group(3)
+
+
+def pred_frozen_arguments(case, rec, exp):
+    """Object.isFrozen/isSealed on a proxy over a non-extensible arguments object answers true where the arguments object
+    itself answers false (root cause not analysed yet)."""
+    op, d, p = _hist_raw(case, rec)
+    return bool(op) and op.get("o") == "isext" and case.get("target") == "arguments" and \
+        d.startswith("isext:F|") and p.startswith("isext:T|")
+
+
+def pred_delete_calls_getter(case, rec, exp):
+    """a failing strict-mode delete of a non-configurable accessor invokes the getter (for the error message); through a
+    trap-less proxy the getter then sees the raw target as `this`."""
+    op, d, p = _hist_raw(case, rec)
+    return bool(op) and op.get("o") == "delete" and d.startswith("delete:TypeError|get@SELF") and \
+        p.startswith("delete:TypeError|get@TARGET")
+
+
 PREDICATES = {
+    "C11.isfrozen_true_on_proxy_of_arguments": pred_frozen_arguments,
+    "C11.strict_delete_failure_calls_getter": pred_delete_calls_getter,
+    "C11.getter_only_set_reports_success": pred_sym_setter,
+    "C11.proxy_enumeration_drops_index_key": pred_keys_drop_index,
     "C11.f6_accessor_sameas_inverted": pred_f6_accessor,
     "C11.f6_kind_change_accepted": pred_f6_kind,
     "C11.gopd_undefined_accessor_reported_as_data": pred_undef_accessor,
@@ -200,6 +259,83 @@ def lattice_stage(ctx):
     ctx.cov["lattice_cells_in_open_findings"] = counts
 
 
+def hist_stage(ctx):
+    """corpus + random forwarding histories + revoked proxies.  Like vcheck.correspondence, but disagreements that are
+    instances of an open finding (recognised on the unshrunk case) are not shrunk one by one: one representative per
+    finding goes to the generic handler, everything unexplained goes first (and is shrunk)."""
+    cfg = ctx.cfg
+    binp = vcheck.build_harness(ctx)
+    if not binp or not getattr(ctx, "model_ok", True):
+        return
+    ctx.binp = binp
+    known = [k for k in vcheck.load_known()["open"] if k["property"] == ctx.pid]
+
+    def split(recs, bad):
+        rest, reps, counts = [], {}, {}
+        for i in bad:
+            r = recs[i]
+            fid = None
+            if r["case"].get("kind") == "hist":
+                for k in known:
+                    fn = PREDICATES.get(k["predicate"])
+                    if fn and fn(r["case"], r, None):
+                        fid = k["id"]
+                        break
+            if fid is None:
+                rest.append(i)
+            else:
+                counts[fid] = counts.get(fid, 0) + 1
+                reps.setdefault(fid, i)
+        return rest, reps, counts
+
+    def handle(recs, bad, source):
+        lat = [i for i in bad if recs[i]["case"].get("kind") != "hist"]
+        rest, reps, counts = split(recs, [i for i in bad if i not in lat])
+        if lat:
+            order, c2 = preclassify(ctx, recs, lat)
+            vcheck.handle_mismatches(ctx, binp, recs, order, source)
+        if rest:
+            vcheck.handle_mismatches(ctx, binp, recs, rest, source)
+        already = " ".join(ctx.known_lines)
+        todo = [i for fid, i in reps.items() if "[%s]" % fid not in already]
+        if todo:
+            cfg["shrink"] = False
+            try:
+                vcheck.handle_mismatches(ctx, binp, recs, todo, source)
+            finally:
+                cfg["shrink"] = True
+        return counts
+
+    all_recs = []
+    corpus_dir = os.path.join(vcheck.ROOT, "corpus", ctx.pid)
+    corpus_cases = []
+    if os.path.isdir(corpus_dir):
+        for fn in sorted(os.listdir(corpus_dir)):
+            if fn.endswith(".jsonl"):
+                corpus_cases += [r["case"] for r in vcheck.read_jsonl(os.path.join(corpus_dir, fn))]
+    if corpus_cases:
+        recs = vcheck.harness_replay(ctx, binp, corpus_cases, tag="corpus")
+        bad, errs, _ = vcheck.coq_eval(ctx, recs, tag="c")
+        for e in errs:
+            ctx.log("coq eval error on corpus: " + e[-500:])
+            ctx.eval_errors = True
+        ctx.cov["corpus_cases"] = len(recs)
+        if bad:
+            handle(recs, bad, "corpus")
+        all_recs += recs
+    recs = vcheck.harness_gen(ctx, binp, cfg["n"][ctx.tier], ctx.seed, extra=cfg.get("gen_extra"))
+    ctx.log("generated %d history/revocation cases" % len(recs))
+    bad, errs, _ = vcheck.coq_eval(ctx, recs, tag="g")
+    for e in errs:
+        ctx.log("coq eval error: " + e[-800:])
+        ctx.eval_errors = True
+    counts = handle(recs, bad, "generated") if bad else {}
+    ctx.log("histories: %d differ between target and forwarding proxy; inside open findings: %s" % (len(bad), counts))
+    ctx.cov["history_cases_in_open_findings"] = counts
+    all_recs += recs
+    vcheck.summarize(ctx, all_recs, len(bad))
+
+
 def candidates(case):
     if isinstance(case, dict) and case.get("kind") == "hist":
         out = vcheck.default_candidates(case)
@@ -229,7 +365,9 @@ CFG = {
              "in lock-step to a target and to a 1-3 layer forwarding proxy over a clone (plain object, array, function, "
              "arguments, String object; JS Reflect handler, empty handler, Go handler); non-trivial = some mutation succeeded; "
              "(c) revoked proxies; distinct = by hash of the case"),
-    "theorem_names": [],
+    "theorem_names": ["checks_eq_spec", "checks_eq_spec_other_traps", "ownkeys_eq", "honest_accepted", "forwarding_transparent",
+                      "goja_forwarding_transparent", "lying_has", "lying_delete", "lying_get", "lying_set", "lying_extensibility",
+                      "lying_prototype", "lying_ownkeys", "lying_gopd", "lying_define", "lying_construct", "revoked_throws"],
     "allowed_axioms": [],
     "trusted_base": [
         "Coq 8.16.1 kernel + vm_compute (no native_compute); theorems closed under the global context (no axioms)",
@@ -246,7 +384,7 @@ CFG = {
     ],
     "predicates": PREDICATES,
     "candidates": candidates,
-    "stages": [vcheck.correspondence, lattice_stage],
+    "stages": [hist_stage, lattice_stage],
     "manifest": {
         "text": ("Proxy invariant enforcement: goja's post-trap checks (transcribed) are proved equal to the ECMA-262 10.5 "
                  "post-conditions for all trap results and all target states (except the recorded F6 region), honest "
